@@ -27,7 +27,9 @@ fn arg(args: &[String], name: &str) -> Option<String> {
 fn main() {
     let args: Vec<String> = std::env::args().collect();
     // panics of the code under test are data (caught per case); keep stderr quiet
-    std::panic::set_hook(Box::new(|_| {}));
+    if std::env::var("VERIF_SHOW_PANICS").is_err() {
+        std::panic::set_hook(Box::new(|_| {}));
+    }
     let cmd = args.get(1).cloned().unwrap_or_default();
     // run on a big stack: deep grammars recurse in the builder, not only in chumsky
     let child = std::thread::Builder::new().stack_size(512 << 20).spawn(move || real_main(cmd, args)).unwrap();
